@@ -246,7 +246,7 @@ def run(ctx):
     BUF = meta["consts"]["BUF_SIZE"] if meta else 4096
     PRE = meta["prefill"] if meta else 64
     thorough = ctx.thorough()
-    maxlen = 64 * 1024 if thorough else 20 * 1024
+    maxlen = 48 * 1024 if thorough else 20 * 1024
 
     # ---------------- parameters
     polys = [DEFAULT_POLY] + [random_poly(rng) for _ in range(4 if thorough else 2)]
@@ -260,7 +260,7 @@ def run(ctx):
             (1, 1, 1), (2, 1, 8), (256, 63, 256), (256, 64, 300), (128, 65, 5000), (4096, 2048, 8192), (64, 0, 128),
             (4096, 4095, 8192), (8192, 4095, 8192)]
     stream_kinds = ["random", "random", "dense", "dense", "zeros", "ff", "periodic", "sparse"]
-    ngroups = 700 if thorough else 110
+    ngroups = 450 if thorough else 110
     cases = []      # dicts: line, group key, params, data, kind
     rabs = {}
     def rab_for(poly):
